@@ -573,6 +573,47 @@ pub fn medium_families(thorough: bool, dims: &[usize], periodic_opts: &[bool]) -
                     let sts: Vec<State> = subsets_upto(pool.len(), pool.len()).iter().map(|s| make_state(dim, periodic, b, "L2c", &pool, s)).collect();
                     out.push((format!("{}|{}|L2c pool={} all subsets", dim_tag(dim, periodic), b.name, pool.len()), sts));
                 }
+                // a corner of the box (an edge midpoint, a face centre) that is itself a Voronoi vertex: d generators off
+                // the walls at equal distance from it (cyclic shifts of (a, b, b)), with and without a far generator -
+                // cells that touch a wall in a single point or edge, faces degenerated to a point
+                if dim >= 2 && !periodic {
+                    let mut sts = vec![];
+                    let targets: Vec<[f64; 3]> = vec![[0., 0., 0.], [1., 1., 1.], [0., 1., 0.], [1., 0., 1.], [0.5, 0., 0.], [0.5, 0.5, 0.], [1., 0.5, 1.]];
+                    for (ti, tg) in targets.iter().enumerate() {
+                        for (ai, (a, bb)) in [(0.5, 0.25), (0.25, 0.5), (0.375, 0.125)].iter().enumerate() {
+                            let mut pts = vec![];
+                            for k in 0..dim {
+                                let mut f = [*bb; 3];
+                                f[k] = *a;
+                                // step away from the target point into the box
+                                let mut p = [0.0f64; 3];
+                                for ax in 0..3 {
+                                    p[ax] = if tg[ax] >= 0.75 { tg[ax] - f[ax] } else { tg[ax] + f[ax] };
+                                }
+                                let mut q = b.anchor + v3(p[0], p[1], p[2]) * b.width;
+                                if dim == 2 {
+                                    q.z = GARBAGE[k % 3];
+                                }
+                                pts.push(q);
+                            }
+                            let valid = |v: &Vec<DVec3>| v.iter().all(|q| (0..dim).all(|ax| comp(*q, ax) > comp(b.anchor, ax) && comp(*q, ax) < comp(b.anchor, ax) + comp(b.width, ax)));
+                            let distinct = |v: &Vec<DVec3>| (0..v.len()).all(|i| (0..i).all(|j| (0..dim).any(|ax| comp(v[i], ax) != comp(v[j], ax))));
+                            if !valid(&pts) || !distinct(&pts) {
+                                continue;
+                            }
+                            sts.push(State { id: format!("{}|{}|vertex-at-target{}|ab{}", dim_tag(dim, false), b.name, ti, ai), dim, periodic: false, anchor: b.anchor, width: b.width, gens: pts.clone() });
+                            let mut far = b.anchor + v3(if tg[0] >= 0.75 { 0.0625 } else { 0.9375 }, if tg[1] >= 0.75 { 0.125 } else { 0.875 }, if tg[2] >= 0.75 { 0.0625 } else { 0.9375 }) * b.width;
+                            if dim == 2 {
+                                far.z = GARBAGE[0];
+                            }
+                            pts.push(far);
+                            if distinct(&pts) {
+                                sts.push(State { id: format!("{}|{}|vertex-at-target{}|ab{}+far", dim_tag(dim, false), b.name, ti, ai), dim, periodic: false, anchor: b.anchor, width: b.width, gens: pts });
+                            }
+                        }
+                    }
+                    out.push((format!("{}|{}|a corner / edge midpoint / face centre of the box is a Voronoi vertex ({} states)", dim_tag(dim, false), b.name, sts.len()), sts));
+                }
             }
         }
     }
